@@ -251,6 +251,36 @@ PROPS["C30"].update({
     "outside_claim": ["labels, properties, statistics, WAL manifest, query equality between bulk-loaded and transactional databases"],
     "design_ref": "DESIGN.md section 3, C30",
 })
+# C05-O2 (E2): what compaction keeps vs what reads return (added after the copy above so that C30 does not inherit it)
+PROPS["C05"] = dict(PROPS["C05"])
+PROPS["C05"]["e2"] = ["neighbors", "csr"]
+PROPS["C30"]["e2"] = ["csr"]
+for _p in ("C05", "C30"):
+    PROPS[_p]["functions_encoded"] = PROPS[_p]["functions_encoded"] + ["E2: csr::CsrSegment::{persist (reverse index), neighbors, incoming_neighbors} + closures "
+                                                                       "on segments of <= 3 sources / <= 4 relationships"]
+    PROPS[_p]["bounds"] = dict(PROPS[_p]["bounds"])
+    PROPS[_p]["bounds"]["E2 segment shapes"] = ("<= 3 consecutive sources, <= 4 relationships, destinations min_dst+{0,1,2}; 9 layouts quick / up to 400 thorough; "
+                                                "min_src, min_dst (1 <= x < 2^32-16) and all relationship types symbolic; every node id in and next to the id "
+                                                "ranges queried with and without a symbolic relationship-type filter")
+    PROPS[_p]["stubs"] = PROPS[_p]["stubs"] + ["E2: encode_offsets/encode_edges/write_blob_pages/encode_meta/Pager::{allocate_page,write_page} -> success; "
+                                               "sort_by_key -> every stable permutation consistent with the symbolic keys; lazy filter/map adaptors are "
+                                               "evaluated by running the real closures element by element"]
+    PROPS[_p]["level_text"] = PROPS[_p]["level_text"] + (" E2 (MIR symbolic execution, z3): after the real persist builds the reverse index, the real "
+                                                          "neighbors / incoming_neighbors return exactly the stored relationships of every queried node "
+                                                          "(none outside the id ranges, never a panic) for every listed layout and all symbolic ids.")
+PROPS["C05"]["functions_encoded"] = PROPS["C05"]["functions_encoded"] + ["engine::build_segment_from_runs (filter loop up to the sort call)",
+                                                                         "read_path_iters::NeighborsIter::next + helpers (reference for the differential)"]
+PROPS["C05"]["bounds"] = dict(PROPS["C05"]["bounds"])
+PROPS["C05"]["bounds"]["compaction vs reads"] = ("2 runs (newest first), per run <= 1 tombstoned node, <= 1 tombstoned relationship, <= 1 relationship of one "
+                                                 "source node; all ids symbolic u32; 5 run shapes quick / all 64 thorough")
+PROPS["C05"]["stubs"] = PROPS["C05"]["stubs"] + ["E2: HashSet as a finite list of symbolic elements, L0Run as (tombstoned nodes, tombstoned relationships, "
+                                                 "relationships); slice::sort = identity (the target stops right after it)"]
+PROPS["C05"]["outside_claim"] = ["property sinking, overwrite across compactions, the layout half of build_segment_from_runs (offset table), anything needing "
+                                 "GraphEngine", "segments with more than 2 edges (Kani read kernels)", "more than 2 runs in the compaction differential"]
+PROPS["C05"]["level_text"] = (PROPS["C05"]["level_text"].replace(" Partial: segment read kernels only.", "") +
+                              " Plus a differential decided by MIR symbolic execution (z3): for every symbolic 2-run snapshot the relationships the real "
+                              "build_segment_from_runs keeps are exactly the relationships the real NeighborsIter returns before compaction. Partial: "
+                              "relationship visibility and segment read kernels; properties are outside.")
 PROPS["C04"] = {
     "title": "Reopen preserves logical content",
     "kani": [("kani/storage/idmap.rs", r"^c04_")],
@@ -395,18 +425,24 @@ PROPS["C32"] = {
 PROPS["C19"] = {
     "title": "WHERE partitions rows by truth value",
     "kani": [],
-    "e2": ["iters"],
-    "functions_encoded": ["plan_iterators::FilterIter::next", "evaluator::evaluate_expression_bool"],
+    "e2": ["iters", "pushdown"],
+    "functions_encoded": ["plan_iterators::FilterIter::next", "evaluator::evaluate_expression_bool",
+                          "query_api::match_compile::extend_predicates_from_properties"],
     "bounds": {"stream": "every input prefix of <= 3 items (quick) / 5 (thorough), each item Ok(row) | Err | end of stream",
-               "predicate": "evaluator result modelled as a fresh Value: Bool(b) with symbolic b, Null, Int, String"},
-    "stubs": ["inner Iterator::next -> symbolic stream; ensure_runtime_expression_compatible -> Ok | Err; evaluate_expression_bool -> true | other "
+               "predicate": "evaluator result modelled as a fresh Value: Bool(b) with symbolic b, Null, Int, String",
+               "push-down map": "2 inline properties (3 thorough) with symbolic key/value ids; map before the call empty / same variable / other variable / both"},
+    "stubs": ["push-down: BTreeMap as an association list with symbolic string ids, entry/insert/or_insert_with fork on key equality; "
+              "inner Iterator::next -> symbolic stream; ensure_runtime_expression_compatible -> Ok | Err; evaluate_expression_bool -> true | other "
               "(its own body is decided separately: true iff the value is exactly Bool(true))"],
     "assumptions": ["the three queries (p, NOT p, p IS NULL) evaluate p deterministically on the same row"],
-    "outside_claim": ["filter push-down into match/index plans, OPTIONAL MATCH fix-up, the truth tables of NOT / IS NULL themselves"],
-    "level_text": "Partial and thin: path-wise symbolic execution (z3) of the filter operator kernel over a symbolic input stream: a row "
+    "outside_claim": ["how the planner consumes the push-down map (index seeks, label filters), OPTIONAL MATCH fix-up, the truth tables of NOT / IS NULL "
+                      "themselves"],
+    "level_text": "Partial: path-wise symbolic execution (z3) of the filter operator kernel over a symbolic input stream: a row "
                   "is emitted iff it is the next Ok row whose predicate value is exactly Bool(true); Err items and compatibility errors are "
-                  "forwarded; no row is emitted twice, reordered or skipped for another reason; None only at end of input.",
-    "level_note": "Trusted: rustc MIR dump, E2 translator and stream model, z3.",
+                  "forwarded; no row is emitted twice, reordered or skipped for another reason; None only at end of input. And of the push-down "
+                  "map construction: every inline pattern property ends up in the pushed-down predicate set of its variable whatever the map "
+                  "held before (a WHERE equality on the same key never displaces it), other entries are untouched.",
+    "level_note": "Trusted: rustc MIR dump, E2 translator, stream and map models, z3.",
     "design_ref": "DESIGN.md section 3, C19",
 }
 
